@@ -1,11 +1,14 @@
 import Holpy.Common.Sexp
 import Holpy.C10.Model
 import Holpy.C10.PolyModel
+import Holpy.C10.IntModel
 /-
 Line protocol of the C10 model (one s-expression in, one out):
   (acnorm TREE)            -> TREE                       conj_norm / disj_norm on member ids
   (conv FUEL CE TERM)      -> (ok LHS RHS) | (err KIND)  conversion combinators
   (natnorm ONE NEXP)       -> NEXP                       data/nat.py norm_full (see Model.lean)
+  (intsimp IEXP) / (intnorm IEXP) -> IEXP               simp_full / int_norm_conv (IntModel.lean)
+  (intnormeq IEXP IEXP)    -> IEXP                       int_norm_eq: left side of the resulting `lhs = 0`
   (topoly EXPR)            -> ((((atom power) ...) num den) ...)   convert_to_poly (PolyModel.lean)
   (frompoly EXPR)          -> EXPR                       from_poly (convert_to_poly e)
   (isnf ONE NEXP)          -> T | F                      the normal-form predicate of norm_idem
@@ -118,6 +121,28 @@ def polyTo (p : Holpy.C10.Poly.PolyL Rat) : Sexp :=
   .list (p.map fun t => .list [.list (t.1.map fun f => .list [Sexp.ofNat f.1, Sexp.ofNat f.2]),
     Sexp.ofInt t.2.num, Sexp.ofNat t.2.den])
 
+/-! integer normaliser: IEXP = (at i s) | (num z) | (add a b) | (sub a b) | (mul a b) | (neg a) | (pow b e) -/
+open Holpy.C10.IntN in
+partial def iexpOf : Sexp → Option IExp
+  | .list [.atom "at", i, s] => do some (.atom (← i.toNat?) (← s.toNat?))
+  | .list [.atom "num", z] => do some (.num (← z.toInt?))
+  | .list [.atom "add", a, b] => do some (.add (← iexpOf a) (← iexpOf b))
+  | .list [.atom "sub", a, b] => do some (.sub (← iexpOf a) (← iexpOf b))
+  | .list [.atom "mul", a, b] => do some (.mul (← iexpOf a) (← iexpOf b))
+  | .list [.atom "neg", a] => do some (.neg (← iexpOf a))
+  | .list [.atom "pow", b, e] => do some (.pow (← iexpOf b) (← e.toNat?))
+  | _ => none
+
+open Holpy.C10.IntN in
+partial def iexpTo : IExp → Sexp
+  | .atom i s => .list [.atom "at", Sexp.ofNat i, Sexp.ofNat s]
+  | .num z => .list [.atom "num", Sexp.ofInt z]
+  | .add a b => .list [.atom "add", iexpTo a, iexpTo b]
+  | .sub a b => .list [.atom "sub", iexpTo a, iexpTo b]
+  | .mul a b => .list [.atom "mul", iexpTo a, iexpTo b]
+  | .neg a => .list [.atom "neg", iexpTo a]
+  | .pow b e => .list [.atom "pow", iexpTo b, Sexp.ofNat e]
+
 def errTo : Err → String
   | .conv => "conv"
   | .invalid => "invalid"
@@ -137,6 +162,18 @@ def handle (line : String) : String :=
       | .ok (l, r) => toString (Sexp.list [.atom "ok", termTo l, termTo r])
       | .error e => toString (Sexp.list [.atom "err", .atom (errTo e)])
     | _, _, _ => "bad-op"
+  | some (.list [.atom "intsimp", e]) =>
+    match iexpOf e with
+    | some e => toString (iexpTo (Holpy.C10.IntN.simpFull e))
+    | none => "bad-op"
+  | some (.list [.atom "intnorm", e]) =>
+    match iexpOf e with
+    | some e => toString (iexpTo (Holpy.C10.IntN.intNorm e))
+    | none => "bad-op"
+  | some (.list [.atom "intnormeq", a, b]) =>
+    match iexpOf a, iexpOf b with
+    | some a, some b => toString (iexpTo (Holpy.C10.IntN.intNormEq a b))
+    | _, _ => "bad-op"
   | some (.list [.atom "topoly", e]) =>
     match pexpOf e with
     | some e => toString (polyTo (Holpy.C10.Poly.toPoly e))
